@@ -27,20 +27,22 @@ from . import packages as pk
 
 PID = 'C19'
 RULE = ('cases = one fit output file each (kind fitter/direct, 1..4 records, stored predicted fluxes all/none/mixed, '
-        'record sizes varied by keep() including records with zero kept fits at the first / a middle / the last position and '
-        'consecutively); every case cuts its file at every offset (thorough) or at every offset of a small '
-        'file / ~400 sampled + all frame boundaries +-1 of a larger file (quick); a case is non-trivial when its offsets '
+        'a share written by sedfitter.fit() itself from a data file, record sizes varied by keep() including records with zero kept fits at the first / a middle / the last position and '
+        'consecutively); every case cuts its file at every offset (thorough); quick: every offset '
+        'inside the records of a file with a small record part + header frame boundaries + ~150 sampled header offsets, or ~400 '
+        'sampled (3/4 inside records) + all frame boundaries +-2 of a larger file; a case is non-trivial when its offsets '
         'include a cut inside a record; distinct = distinct canonical hash of the generated file description')
 REQUIRED_BRANCHES = ['open_error', 'iter_error', 'end_at_record_boundary', 'end_inside_record', 'offset_0',
                      'with_model_fluxes', 'without_model_fluxes', 'records_1', 'records_2', 'records_3', 'records_4',
-                     'fitter', 'direct', 'yielded_1', 'yielded_2', 'yielded_3',
+                     'fitter', 'direct', 'fit_function', 'yielded_1', 'yielded_2', 'yielded_3',
                      'zero_fit_first', 'zero_fit_middle', 'zero_fit_last', 'zero_fit_consecutive', 'complete_file']
 ASSUMPTIONS = ['CPython\'s unpickler is a deterministic function of the bytes it consumes (values are not modelled, only framing)',
                'the pickles are protocol 2 as written by FitInfoFile.write (opcode table of protocols 0-2)']
 EXHAUSTIVE = {'quick': False, 'thorough': True}
 TRUSTED_EXTRA = ['os.truncate on a copy of the written file reproduces a crash at that byte']
 N = {'quick': 48, 'thorough': 200}
-SMALL = 6000          # quick: files up to this size are cut at every offset
+SMALL_REC = 4500      # quick: files whose record part is at most this long are cut at every offset inside the records
+NHEAD = 150           # quick: sampled offsets inside the header of such a file (plus the header frame boundaries +-2)
 NSAMPLE = 400
 NH = 3                # header pickles written by FitInfoFile.write
 
@@ -53,7 +55,7 @@ def _flux_rows(rng, nm, nb):
 
 def gen_case(rng, directed=None):
     directed = directed or {}
-    kind = directed.get('kind') or rng.choice(['fitter', 'direct', 'direct'])
+    kind = directed.get('kind') or rng.choice(['fitter', 'direct', 'direct', 'fitfile'])
     nrec = directed.get('nrec') or rng.randint(1, 4)
     convmode = directed.get('conv') or rng.choice(['all', 'none', 'mixed'])
     conv = [dict(all=True, none=False).get(convmode, rng.random() < 0.5) for _ in range(nrec)]
@@ -64,8 +66,12 @@ def gen_case(rng, directed=None):
     else:
         pz = rng.choice([0., 0., 0.25, 0.5])
         zero = [rng.choice(['N0', 'C']) if rng.random() < pz else None for _ in range(nrec)]
+    if kind == 'fitfile':
+        # sedfitter.fit() has one output_convolved switch and one output_format for the whole file
+        conv = [conv[0]] * nrec
+        zero = [None] * nrec
     case = dict(kind=kind, nrec=nrec, conv=conv, zero=zero, oseed=rng.randrange(1 << 30))
-    if kind == 'fitter':
+    if kind in ('fitter', 'fitfile'):
         nb = rng.randint(2, 4)
         nm = rng.randint(2, 4) if small else rng.randint(3, 12)
         apdep = (not small) and rng.random() < 0.4
@@ -82,6 +88,12 @@ def gen_case(rng, directed=None):
                                   flux=[nice(rng, 1e-1, 1e2, 3) for _ in wavs],
                                   err=[nice(rng, 1e-2, 0.9, 2) for _ in wavs],
                                   keep=rng.randint(1, nm)) for i in range(nrec)])
+        if kind == 'fitfile':
+            case['out_format'] = rng.choice([['N', rng.randint(1, nm)], ['A', 0], ['F', round(rng.uniform(0.5, 50.), 1)],
+                                             ['D', round(rng.uniform(0.5, 50.), 1)]])
+            for s in case['sources']:
+                s['x'] = round(rng.uniform(0, 360), 5)
+                s['y'] = round(rng.uniform(-90, 90), 5)
         for s in case['sources']:
             # at least two fitted bands
             for j in range(2):
@@ -124,7 +136,9 @@ def gen_cases(seed, tier):
                 dict(kind='direct', nrec=3, conv='all', small=True, zero=[None, None, 'C']),
                 dict(kind='direct', nrec=4, conv='mixed', small=True, zero=[None, 'N0', 'C', None]),
                 dict(kind='fitter', nrec=4, conv='all', small=True, zero=[None, 'C', None, None]),
-                dict(kind='fitter', nrec=3, conv='none', small=True, zero=['N0', 'N0', None])]
+                dict(kind='fitter', nrec=3, conv='none', small=True, zero=['N0', 'N0', None]),
+                # files written by sedfitter.fit() itself, with and without output_convolved
+                dict(kind='fitfile', nrec=2, conv='all', small=True), dict(kind='fitfile', nrec=4, conv='none', small=False)]
     for i in range(N[tier]):
         rng = case_rng(seed, PID, i)
         c = gen_case(rng, directed[i] if i < len(directed) else None)
@@ -148,21 +162,69 @@ def _keep_zero(info, z):
         raise RuntimeError('harness self-check: keep() left %d fits in a record meant to be empty' % len(info.chi2))
 
 
+def produce(case, d):
+    """(the records that were written, path of the written file)"""
+    path = os.path.join(d, 'out.fitinfo')
+    if case['kind'] == 'fitfile':
+        return fit_file(case, d, path), path
+    infos = build_infos(case, d)
+    write_file(infos, path)
+    return infos, path
+
+
+def write_package(case, d):
+    nm = case['nm']
+    names = ['model_%03d' % i for i in range(nm)]
+    md = os.path.join(d, 'models')
+    os.makedirs(md)
+    pk.write_conf(md, aperture_dependent=case['apdep'])
+    fnames = []
+    for j, w in enumerate(case['wavs']):
+        fn = 'F%d' % j
+        fnames.append(fn)
+        flux = [case['models'][i][j] for i in range(nm)]
+        pk.write_convolved(md, fn, w, names, flux, [[0.] * len(r) for r in flux], apertures_au=case['apertures_au'])
+    return md, fnames
+
+
+def fit_file(case, d, path):
+    """the file is written by sedfitter.fit() from a data file; the records it must hold are recomputed with a
+    Fitter configured the same way on the same parsed lines (fit() = parse, Fitter.fit, drop fluxes, keep, write)"""
+    from astropy import units as u
+    import sedfitter
+    from sedfitter.source import Source
+    md, fnames = write_package(case, d)
+    ext = pk.make_extinction(case['tab_w'], case['tab_chi'])
+    lines = []
+    for s in case['sources']:
+        src = pk.make_source(s['name'], s['flags'], s['flux'], s['err'], x=s['x'], y=s['y'])
+        lines.append(src.to_ascii())
+    data = os.path.join(d, 'data.txt')
+    with open(data, 'w') as f:
+        f.write('\n'.join(lines) + '\n')
+    fmt = (case['out_format'][0], case['out_format'][1])
+    conv = bool(case['conv'][0])
+    with common.quiet():
+        sedfitter.fit(data, fnames, np.array([1.] * len(fnames)) * u.arcsec, md, path, n_data_min=2,
+                      extinction_law=ext, av_range=tuple(case['av']), distance_range=np.array([1., 2.]) * u.kpc,
+                      output_format=fmt, output_convolved=conv)
+    fitter = pk.make_fitter(md, fnames, [1.] * len(fnames), ext, case['av'], distance_range_kpc=(1., 2.), use_memmap=True)
+    infos = []
+    for line in lines:
+        with common.quiet():
+            info = fitter.fit(Source.from_ascii(line))
+        if not conv:
+            info.model_fluxes = None
+        info.keep(fmt)
+        infos.append(info)
+    return infos
+
+
 def build_infos(case, d):
     from astropy import units as u
     infos = []
     if case['kind'] == 'fitter':
-        nm = case['nm']
-        names = ['model_%03d' % i for i in range(nm)]
-        md = os.path.join(d, 'models')
-        os.makedirs(md)
-        pk.write_conf(md, aperture_dependent=case['apdep'])
-        fnames = []
-        for j, w in enumerate(case['wavs']):
-            fn = 'F%d' % j
-            fnames.append(fn)
-            flux = [case['models'][i][j] for i in range(nm)]
-            pk.write_convolved(md, fn, w, names, flux, [[0.] * len(r) for r in flux], apertures_au=case['apertures_au'])
+        md, fnames = write_package(case, d)
         ext = pk.make_extinction(case['tab_w'], case['tab_chi'])
         fitter = pk.make_fitter(md, fnames, [1.] * len(fnames), ext, case['av'], distance_range_kpc=(1., 2.))
         for s, conv, z in zip(case['sources'], case['conv'], case.get('zero') or [None] * case['nrec']):
@@ -237,6 +299,14 @@ def _arr_equal(a, b):
     return bool(np.array_equal(a, b))
 
 
+def _num_equal(a, b):
+    """scalars: same value, NaN equal to NaN"""
+    if a is None or b is None:
+        return a is None and b is None
+    a, b = float(a), float(b)
+    return a == b or (a != a and b != b)
+
+
 def same_record(got, written_obj, written_bytes):
     """byte-identical re-pickle, or (fallback) field-wise equality, NaN-aware"""
     try:
@@ -248,8 +318,10 @@ def same_record(got, written_obj, written_bytes):
         if type(got) is not type(written_obj):
             return False
         s, w = got.source, written_obj.source
-        if not (s.name == w.name and s.x == w.x and s.y == w.y and _arr_equal(s.valid, w.valid) and
-                _arr_equal(s.flux, w.flux) and _arr_equal(s.error, w.error)):
+        if type(s) is not type(w):
+            return False
+        if not (type(s.name) is type(w.name) and s.name == w.name and _num_equal(s.x, w.x) and _num_equal(s.y, w.y) and
+                _arr_equal(s.valid, w.valid) and _arr_equal(s.flux, w.flux) and _arr_equal(s.error, w.error)):
             return False
         return all(_arr_equal(getattr(got, k), getattr(written_obj, k))
                    for k in ('av', 'sc', 'chi2', 'model_id', 'model_name', 'model_fluxes'))
@@ -257,17 +329,28 @@ def same_record(got, written_obj, written_bytes):
         return False
 
 
-def choose_offsets(case, n, hlen, marks, layout_known):
-    """every offset 0..n (thorough, or a small file), else a sample: the marks (frame boundaries) +-2, the
-    ends of the file, a quarter of the random part in the header and the rest inside the records"""
-    if case.get('tier') == 'thorough' or n <= SMALL:
-        return list(range(n + 1)), True
+def choose_offsets(case, n, hlen, marks, layout_known, head_marks=()):
+    """thorough: every offset 0..n.  quick, small record part: every offset from the end of the header on, the header
+    frame boundaries +-2 and NHEAD sampled header offsets (the header is the same few pickles in every file; the
+    records are where files differ).  quick, larger file: the marks (frame boundaries) +-2, the ends of the file, a
+    quarter of the random part in the header and the rest inside the records.
+    returns (offsets, every offset of the file, every offset inside the records)"""
+    if case.get('tier') == 'thorough':
+        return list(range(n + 1)), True, True
     rng = case_rng(case['oseed'], PID, 'offsets')
     pts = {0, 1, 2, n - 1, n}
-    for b in marks:
+    for b in list(marks) + list(head_marks):
         for dlt in (-2, -1, 0, 1, 2, 3):
             if 0 <= b + dlt <= n:
                 pts.add(b + dlt)
+    if layout_known and n - hlen <= SMALL_REC:
+        pts |= set(range(max(0, hlen - 2), n + 1))
+        want = min(len(pts) + NHEAD, n)
+        while len(pts) < want:
+            pts.add(rng.randrange(max(1, hlen)))
+        return sorted(pts), False, True
+    if not layout_known and n <= SMALL_REC + 3000:
+        return list(range(n + 1)), True, True
     # an unexpected file layout (not header + one pickle per record) gets a three times denser sample
     want = (NSAMPLE if layout_known else 3 * NSAMPLE) + len(pts)
     want = min(want, n)
@@ -276,7 +359,7 @@ def choose_offsets(case, n, hlen, marks, layout_known):
             pts.add(rng.randrange(max(1, hlen)))
         else:
             pts.add(rng.randrange(hlen, n))
-    return sorted(pts), False
+    return sorted(pts), False, False
 
 
 def model_scan(data, offsets):
@@ -300,16 +383,15 @@ def sweep(case, with_model=True):
     d = tempfile.mkdtemp(prefix='c19_')
     branches = set()
     try:
-        infos = build_infos(case, d)
-        path = os.path.join(d, 'out.fitinfo')
-        write_file(infos, path)
+        infos, path = produce(case, d)
         data = open(path, 'rb').read()
         written = [pickle.dumps(info, 2) for info in infos]
         k = len(infos)
         n = len(data)
         # the layout FitInfoFile.write is modelled to produce: three header pickles, then one pickle per record
         meta = infos[0].meta
-        head = b''.join(pickle.dumps(x, 2) for x in (meta.model_dir, meta.filters, meta.extinction_law))
+        head_parts = [pickle.dumps(x, 2) for x in (meta.model_dir, meta.filters, meta.extinction_law)]
+        head = b''.join(head_parts)
         tail = b''.join(written)
         layout_known = (data == head + tail)
         hlen = len(head) if data.startswith(head) else 0
@@ -326,8 +408,9 @@ def sweep(case, with_model=True):
             model_full = model_scan(data, [n])[n]
             for a, b in model_full[2]:
                 marks += [a, b]
-        offsets, exhaustive = choose_offsets(case, n, hlen, sorted(set(marks)), layout_known)
-        branches.add(case['kind'])
+        head_marks = [len(head_parts[0]), len(head_parts[0]) + len(head_parts[1])] if hlen else []
+        offsets, exhaustive, exhaustive_rec = choose_offsets(case, n, hlen, sorted(set(marks)), layout_known, head_marks)
+        branches.add('fit_function' if case['kind'] == 'fitfile' else case['kind'])
         branches.add('records_%d' % k)
         if any(case['conv']):
             branches.add('with_model_fluxes')
@@ -397,7 +480,9 @@ def sweep(case, with_model=True):
                     if first_bad is None:
                         first_bad = ('offset %d of %d: impl outcome=%s records=%d (exception %s); model outcome=%s records=%d '
                                      'frames=%r; written frames=%r' % (t, n, st, len(recs), exc, mst, mn, moffs, bounds))
-        stats = dict(file_len=n, header_len=hlen, records=k, offsets=len(offsets), exhaustive=exhaustive, outcomes=hist)
+        stats = dict(file_len=n, header_len=hlen, records=k, offsets=len(offsets),
+                     record_offsets=sum(1 for t in offsets if t >= hlen), exhaustive=exhaustive,
+                     exhaustive_inside_records=exhaustive_rec, outcomes=hist)
         return dict(ok=first_bad is None and first_viol is None, violates=True if first_viol else None,
                     detail=first_viol or first_bad or '', branches=branches, stats=stats, inside=inside)
     finally:
@@ -446,7 +531,7 @@ def shrink(case):
         c['conv'] = cur['conv'][:c['nrec']]
         if cur.get('zero'):
             c['zero'] = cur['zero'][:c['nrec']]
-        if cur['kind'] == 'fitter':
+        if cur['kind'] in ('fitter', 'fitfile'):
             c['sources'] = cur['sources'][:c['nrec']]
         else:
             c['recs'] = cur['recs'][:c['nrec']]
